@@ -49,7 +49,7 @@ type tr2 struct {
 }
 
 var leanTypeOfKind = map[string]string{"ents": "List Entry", "omap": "List Entry", "int": "Int", "cids": "List Hash",
-	"set": "List Hash", "smap": "List (Hash × Hash)", "entry": "Entry", "hash": "Hash", "bool": "Bool", "bytes": "Bytes", "key": "Entry"}
+	"set": "List Hash", "smap": "List (Hash × Hash)", "entry": "Entry", "hash": "Hash", "bool": "Bool", "bytes": "Bytes", "key": "Entry", "log": "Unit"}
 
 func (t *tr2) fail(n ast.Node, why string) string {
 	t.errs = append(t.errs, fmt.Sprintf("%s: %s", why, src(t.fset, n)))
@@ -62,7 +62,7 @@ func kindOfType(e ast.Expr) string {
 		switch typeString(x.Elt) {
 		case "iface.IPFSLogEntry", "Entry":
 			return "ents"
-		case "cid.Cid":
+		case "cid.Cid", "string":
 			return "cids"
 		}
 	case *ast.MapType:
@@ -83,6 +83,8 @@ func kindOfType(e ast.Expr) string {
 		}
 	default:
 		switch typeString(e) {
+		case "*IPFSLog":
+			return "log"
 		case "iface.IPFSLogOrderedEntries":
 			return "omap"
 		case "int":
@@ -177,7 +179,7 @@ func (t *tr2) expr(e ast.Expr) (string, string) {
 				return "(decide (" + a + " " + op + " " + b + "))", "bool"
 			}
 		case token.EQL, token.NEQ:
-			if kb == "nil" && (ka == "omap" || ka == "entry") {
+			if kb == "nil" && (ka == "omap" || ka == "entry" || ka == "log") {
 				// the nil-ness of an interface value is not represented: callers pass a value
 				if x.Op == token.EQL {
 					return "false", "bool"
@@ -195,6 +197,14 @@ func (t *tr2) expr(e ast.Expr) (string, string) {
 	case *ast.SelectorExpr:
 		if id, ok := x.X.(*ast.Ident); ok && id.Name == t.recv && t.recv != "" && x.Sel.Name == "Entries" {
 			return "lEntries", "omap"
+		}
+		if id, ok := x.X.(*ast.Ident); ok && t.kinds[id.Name] == "log" {
+			switch x.Sel.Name {
+			case "Entries":
+				return leanName(id.Name) + "Entries", "omap"
+			case "ID":
+				return leanName(id.Name) + "ID", "bytes"
+			}
 		}
 		return t.fail(e, "selector"), ""
 	case *ast.CompositeLit:
@@ -312,6 +322,10 @@ func (t *tr2) call(x *ast.CallExpr) (string, string) {
 		switch {
 		case sel.Sel.Name == "String" && (kr == "cid" || kr == "hash"):
 			return recv, "hash"
+		case sel.Sel.Name == "Len" && kr == "omap":
+			return "(" + recv + ".length : Int)", "int"
+		case sel.Sel.Name == "GetLogID" && kr == "entry":
+			return recv + ".logId", "bytes"
 		case sel.Sel.Name == "GetNext" && kr == "entry":
 			return recv + ".next", "cids"
 		case sel.Sel.Name == "GetRefs" && kr == "entry":
@@ -605,19 +619,8 @@ func (t *tr2) block(stmts []ast.Stmt, fall string, inLoop bool) string {
 		return let(leanName(id.Name), "("+leanName(id.Name)+op+")")
 	case *ast.AssignStmt:
 		// e := xs[0]; xs = xs[1:]   (inside `for len(xs) > 0 && …`): take the head
-		if len(rest) > 0 && x.Tok == token.DEFINE && len(x.Lhs) == 1 && len(x.Rhs) == 1 {
-			if ix, ok := x.Rhs[0].(*ast.IndexExpr); ok && src(t.fset, ix.Index) == "0" {
-				if xs, ok := ix.X.(*ast.Ident); ok && t.kinds[xs.Name] == "ents" {
-					if nx, ok := rest[0].(*ast.AssignStmt); ok && nx.Tok == token.ASSIGN && src(t.fset, nx) == xs.Name+" = "+xs.Name+"[1:]" {
-						if !inLoop || t.brk == "" || !strings.Contains(t.brk+"|"+strings.Join(t.guards, "|"), "len("+xs.Name+") > 0") {
-							return t.fail(st, "head of a slice outside a loop guarded by its length")
-						}
-						e := x.Lhs[0].(*ast.Ident).Name
-						t.kinds[e] = "entry"
-						return "(match " + leanName(xs.Name) + " with\n    | [] => " + t.brk + "\n    | " + leanName(e) + " :: " + leanName(xs.Name) + " =>\n    " + t.block(rest[1:], fall, inLoop) + ")"
-					}
-				}
-			}
+		if r, ok := t.headPattern(x, rest, fall, inLoop, false); ok {
+			return r
 		}
 		return t.assign(x, rest, fall, inLoop)
 	case *ast.ExprStmt:
@@ -632,6 +635,9 @@ func (t *tr2) block(stmts []ast.Stmt, fall string, inLoop bool) string {
 				v, kv := t.expr(c.Args[1])
 				if kk == "hash" && kv == "entry" && k == v+".hash" {
 					return let(leanName(id.Name), "(omSet "+leanName(id.Name)+" "+v+")")
+				}
+				if kk == "hash" && kv == "entry" {
+					return let(leanName(id.Name), "(omSetK "+leanName(id.Name)+" "+k+" "+v+")")
 				}
 			}
 			return t.fail(st, "Set on an ordered map with a key that is not the entry's hash")
@@ -689,6 +695,40 @@ func (t *tr2) block(stmts []ast.Stmt, fall string, inLoop bool) string {
 }
 
 func (t *tr2) assign(x *ast.AssignStmt, rest []ast.Stmt, fall string, inLoop bool) string {
+	// xs := make([]T, len(ys)); for i, e := range ys { xs[i] = f(e) }   →   xs := ys.map f
+	if x.Tok == token.DEFINE && len(x.Lhs) == 1 && len(x.Rhs) == 1 && len(rest) > 0 {
+		if mk, ok := x.Rhs[0].(*ast.CallExpr); ok && src(t.fset, mk.Fun) == "make" && len(mk.Args) == 2 {
+			if rg, ok := rest[0].(*ast.RangeStmt); ok && rg.Tok == token.DEFINE && len(rg.Body.List) == 1 {
+				xs := src(t.fset, x.Lhs[0])
+				ki, okk := rg.Key.(*ast.Ident)
+				ve, okv := rg.Value.(*ast.Ident)
+				st, oks := rg.Body.List[0].(*ast.AssignStmt)
+				if okk && okv && oks && st.Tok == token.ASSIGN && len(st.Lhs) == 1 && len(st.Rhs) == 1 &&
+					src(t.fset, mk.Args[1]) == "len("+src(t.fset, rg.X)+")" && src(t.fset, st.Lhs[0]) == xs+"["+ki.Name+"]" {
+					k := kindOfType(mk.Args[0])
+					ys, ky := t.expr(rg.X)
+					elemKind := map[string]string{"ents": "entry", "cids": "hash"}[ky]
+					if (k == "cids" || k == "ents") && elemKind != "" {
+						saved := t.saveKinds()
+						t.kinds[ve.Name] = elemKind
+						f, kf := t.expr(st.Rhs[0])
+						t.kinds = saved
+						uses := false
+						ast.Inspect(st.Rhs[0], func(n ast.Node) bool {
+							if id, ok := n.(*ast.Ident); ok && id.Name == ki.Name {
+								uses = true
+							}
+							return true
+						})
+						if !uses && ((k == "cids" && kf == "hash") || (k == "ents" && kf == "entry")) {
+							t.kinds[xs] = k
+							return "(let " + leanName(xs) + " := (" + ys + ").map (fun " + leanName(ve.Name) + " => " + f + ");\n    " + t.block(rest[1:], fall, inLoop) + ")"
+						}
+					}
+				}
+			}
+		}
+	}
 	cont := func() string { return t.block(rest, fall, inLoop) }
 	// v, ok := m.Get(k) on an ordered map
 	if len(x.Lhs) == 2 && len(x.Rhs) == 1 && x.Tok == token.DEFINE {
@@ -701,11 +741,21 @@ func (t *tr2) assign(x *ast.AssignStmt, rest []ast.Stmt, fall string, inLoop boo
 			k, kk := t.expr(c.Args[0])
 			v, okv := x.Lhs[0].(*ast.Ident)
 			o, oko := x.Lhs[1].(*ast.Ident)
-			if km != "omap" || kk != "hash" || !okv || !oko || v.Name == "_" || o.Name == "_" {
+			if km != "omap" || kk != "hash" || !okv || !oko {
 				return t.fail(x, "Get on something that is not an ordered map")
 			}
-			t.kinds[v.Name], t.kinds[o.Name] = "entry", "bool"
-			return "(let " + leanName(o.Name) + " := (get? " + m + " " + k + ").isSome;\n    (let " + leanName(v.Name) + " := (get? " + m + " " + k + ").getD default;\n    " + cont() + "))"
+			out, closing := "", ""
+			if o.Name != "_" {
+				t.kinds[o.Name] = "bool"
+				out += "(let " + leanName(o.Name) + " := (get? " + m + " " + k + ").isSome;\n    "
+				closing += ")"
+			}
+			if v.Name != "_" {
+				t.kinds[v.Name] = "entry"
+				out += "(let " + leanName(v.Name) + " := (get? " + m + " " + k + ").getD default;\n    "
+				closing += ")"
+			}
+			return out + cont() + closing
 		}
 	}
 	// a, ok := m[k]
@@ -784,6 +834,18 @@ func (t *tr2) assign(x *ast.AssignStmt, rest []ast.Stmt, fall string, inLoop boo
 }
 
 func (t *tr2) ifStmt(x *ast.IfStmt, rest []ast.Stmt, fall string, inLoop bool) string {
+	// if len(xs) == 0 { break }; e := xs[0]; xs = xs[1:]
+	if x.Init == nil && x.Else == nil && len(x.Body.List) == 1 && len(rest) >= 2 {
+		if br, ok := x.Body.List[0].(*ast.BranchStmt); ok && br.Tok == token.BREAK {
+			if as, ok := rest[0].(*ast.AssignStmt); ok && len(as.Rhs) == 1 {
+				if ix, ok := as.Rhs[0].(*ast.IndexExpr); ok && src(t.fset, x.Cond) == "len("+src(t.fset, ix.X)+") == 0" {
+					if r, ok := t.headPattern(as, rest[1:], fall, inLoop, true); ok {
+						return r
+					}
+				}
+			}
+		}
+	}
 	prefix, closing := "", ""
 	if x.Init != nil {
 		as, ok := x.Init.(*ast.AssignStmt)
@@ -808,6 +870,10 @@ func (t *tr2) ifStmt(x *ast.IfStmt, rest []ast.Stmt, fall string, inLoop bool) s
 		return t.fail(x.Cond, "condition")
 	}
 	body, els := x.Body.List, elseStmts(x)
+	if c == "false" && len(els) == 0 {
+		// dead under the translation's assumption (a nil test of a value that is never nil)
+		return t.block(rest, fall, inLoop)
+	}
 	switch {
 	case !hasTerminator(body) && !hasTerminator(els):
 		vars := assignedOuter(append(append([]ast.Stmt{}, body...), els...))
@@ -832,6 +898,33 @@ func (t *tr2) ifStmt(x *ast.IfStmt, rest []ast.Stmt, fall string, inLoop bool) s
 		return prefix + "(if " + c + " then " + th + "\n    else " + t.block(append(append([]ast.Stmt{}, els...), rest...), fall, inLoop) + ")" + closing
 	}
 	return t.fail(x, "if with an exit on some paths only")
+}
+
+// headPattern: `e := xs[0]; xs = xs[1:]` → a match on the list; allowed where the list is known to be
+// non-empty in Go: the enclosing loop condition has the conjunct len(xs) > 0, or (guarded = true) the
+// statement in front was `if len(xs) == 0 { break }`
+func (t *tr2) headPattern(x *ast.AssignStmt, rest []ast.Stmt, fall string, inLoop bool, guarded bool) (string, bool) {
+	if len(rest) == 0 || x.Tok != token.DEFINE || len(x.Lhs) != 1 || len(x.Rhs) != 1 {
+		return "", false
+	}
+	ix, ok := x.Rhs[0].(*ast.IndexExpr)
+	if !ok || src(t.fset, ix.Index) != "0" {
+		return "", false
+	}
+	xs, ok := ix.X.(*ast.Ident)
+	if !ok || (t.kinds[xs.Name] != "ents" && t.kinds[xs.Name] != "cids") {
+		return "", false
+	}
+	nx, ok := rest[0].(*ast.AssignStmt)
+	if !ok || nx.Tok != token.ASSIGN || src(t.fset, nx) != xs.Name+" = "+xs.Name+"[1:]" {
+		return "", false
+	}
+	if !inLoop || t.brk == "" || !(guarded || strings.Contains(strings.Join(t.guards, "|"), "len("+xs.Name+") > 0")) {
+		return t.fail(x, "head of a slice that is not known to be non-empty"), true
+	}
+	e := x.Lhs[0].(*ast.Ident).Name
+	t.kinds[e] = map[string]string{"ents": "entry", "cids": "hash"}[t.kinds[xs.Name]]
+	return "(match " + leanName(xs.Name) + " with\n    | [] => " + t.brk + "\n    | " + leanName(e) + " :: " + leanName(xs.Name) + " =>\n    " + t.block(rest[1:], fall, inLoop) + ")", true
 }
 
 func (t *tr2) saveKinds() map[string]string {
@@ -903,7 +996,7 @@ func (t *tr2) rangeStmt(x *ast.RangeStmt, rest []ast.Stmt, fall string, inLoop b
 
 // for i := len(xs) - 1; i >= 0; i-- { … xs[i] … }
 func (t *tr2) forStmt(x *ast.ForStmt, rest []ast.Stmt, fall string, inLoop bool) string {
-	if x.Init == nil && x.Post == nil && x.Cond != nil {
+	if x.Init == nil && x.Post == nil {
 		return t.whileStmt(x, rest, fall, inLoop)
 	}
 	init, ok := x.Init.(*ast.AssignStmt)
@@ -985,13 +1078,17 @@ func (t *tr2) whileStmt(x *ast.ForStmt, rest []ast.Stmt, fall string, inLoop boo
 	name := fmt.Sprintf("%s_loop%d", t.fn, len(t.loops)+1)
 	call := "(" + name + " " + strings.Join(t.pnames, " ") + " fuel " + tup + ")"
 	saved := t.saveKinds()
-	c, kc := t.expr(x.Cond)
+	c, kc, guard := "true", "bool", ""
+	if x.Cond != nil {
+		c, kc = t.expr(x.Cond)
+		guard = src(t.fset, x.Cond)
+	}
 	if kc != "bool" {
 		return t.fail(x.Cond, "loop condition")
 	}
 	oldBrk := t.brk
 	t.brk = tup
-	t.guards = append(t.guards, src(t.fset, x.Cond))
+	t.guards = append(t.guards, guard)
 	body := t.block(x.Body.List, call, true)
 	t.guards = t.guards[:len(t.guards)-1]
 	t.brk = oldBrk
@@ -1093,6 +1190,12 @@ func (t *tr2) funcDecl(fd *ast.FuncDecl, name string) string {
 		}
 		for _, n := range f.Names {
 			t.kinds[n.Name] = k
+			if k == "log" {
+				// another log: the fields that are read are parameters (its entry map and its id)
+				ps = append(ps, "("+leanName(n.Name)+"Entries : List Entry)", "("+leanName(n.Name)+"ID : Bytes)")
+				names = append(names, leanName(n.Name)+"Entries", leanName(n.Name)+"ID")
+				continue
+			}
 			ps = append(ps, "("+leanName(n.Name)+" : "+leanTypeOfKind[k]+")")
 			names = append(names, leanName(n.Name))
 		}
@@ -1134,7 +1237,7 @@ func renderSlices(repo string) string {
 		names []string
 	}
 	for _, j := range []job{
-		{"log.go", []string{"maxClockTimeForEntries", "traverse"}},
+		{"log.go", []string{"maxClockTimeForEntries", "traverse", "difference"}},
 		{"log_io.go", []string{"entryLastN", "entryLastNKeeping", "entrySliceRange"}},
 		{"entry/utils.go", []string{"Difference", "FindHeads"}},
 		{"entry/entry.go", []string{"uniqueCIDs"}},
@@ -1153,7 +1256,14 @@ func renderSlices(repo string) string {
 				t.errs = append(t.errs, "function "+n+" not found in "+j.file)
 				continue
 			}
-			fmt.Fprintf(&b, "/-- `%s` (%s) -/\n%s\n", n, j.file, t.funcDecl(fd, lowerFirst(n)))
+			name := lowerFirst(n)
+			switch j.file + ":" + n {
+			case "entry/utils.go:Difference":
+				name = "entryDifference"
+			case "log.go:difference":
+				name = "logDifference"
+			}
+			fmt.Fprintf(&b, "/-- `%s` (%s) -/\n%s\n", n, j.file, t.funcDecl(fd, name))
 		}
 	}
 	for _, e := range t.errs {
